@@ -4,7 +4,7 @@
   (1023 chains of 63 steps) shows `L^g(d₁) ≥ 1024` for all `1 ≤ d₁ < 1024`, `1 ≤ g ≤ 63`.  Hence any two wrong
   words at most 63 positions apart — every pair of positions of a 20- or 33-word share — are detected.
 -/
-import Buidl.Proofs.RS1024
+import Buidl.Proofs.RS1024TwoCheck
 namespace Buidl.Shamir
 open Buidl
 
@@ -22,11 +22,6 @@ theorem rsLpow_zero (n : Nat) : rsLpow n 0 = 0 := by
   induction n with
   | zero => rfl
   | succ n ih => rw [rsLpow, rsL_zero, ih]
-
-/-- XOR of the entries of `ws` selected by the bits of `d` (bit 0 ↔ first entry) -/
-def combo : List Nat → Nat → Nat
-  | [], _ => 0
-  | w :: ws, d => (if d % 2 = 1 then w else 0) ^^^ combo ws (d / 2)
 
 theorem split_low (d : Nat) : d = (d % 2) ^^^ ((d / 2) <<< 1) := by
   apply Nat.eq_of_testBit_eq
@@ -77,9 +72,6 @@ theorem linear_combo (f : Nat → Nat) (hx : ∀ a b, f (a ^^^ b) = f a ^^^ f b)
       simp only [Function.comp]
       congr 2; omega
 
-/-- the images of the ten unit vectors under `L^g` -/
-def basisAt (g : Nat) : List Nat := (List.range 10).map fun j => rsLpow g (2 ^ j)
-
 theorem rsLpow_combo (g d : Nat) (hd : d < 1024) : rsLpow g d = combo (basisAt g) d := by
   have := linear_combo (rsLpow g) (rsLpow_xor g) (rsLpow_zero g) 10 0 d (by simpa using hd)
   simpa [basisAt] using this
@@ -90,16 +82,6 @@ theorem basisAt_succ (g : Nat) : basisAt (g + 1) = (basisAt g).map rsL := by
   intro j _
   simp only [Function.comp]
   exact rsLpow_succ' g _
-
-/-- every non-trivial combination of `ws` is at least 1024 -/
-def allCombosBig (ws : List Nat) : Bool := (List.range 1024).all fun d => d == 0 || decide (1024 ≤ combo ws d)
-
-/-- `n` further applications of `L` to the basis images, checking the combinations after each -/
-def checkFrom : Nat → List Nat → Bool
-  | 0, _ => true
-  | n + 1, ws => allCombosBig (ws.map rsL) && checkFrom n (ws.map rsL)
-
-theorem two_check : checkFrom 63 (basisAt 0) = true := by decide +kernel
 
 theorem checkFrom_spec : ∀ (n g0 : Nat), checkFrom n (basisAt g0) = true →
     ∀ g, g0 < g → g ≤ g0 + n → allCombosBig (basisAt g) = true := by
@@ -130,7 +112,7 @@ theorem rsLpow_lt (n d : Nat) (hd : d < 2 ^ 30) : rsLpow n d < 2 ^ 30 := by
 
 /-- two wrong words at most 63 positions apart change the polymod -/
 theorem polymod_two_errors (pre mid post : List Nat) (a a' b b' : Nat) (ha : a < 1024) (ha' : a' < 1024)
-    (hb : b < 1024) (hb' : b' < 1024) (hna : a ≠ a') (hnb : b ≠ b') (hmid : mid.length + 1 ≤ 63) :
+    (hb : b < 1024) (hb' : b' < 1024) (hna : a ≠ a') (hmid : mid.length + 1 ≤ 63) :
     rs1024Polymod (pre ++ a :: (mid ++ b :: post)) ≠ rs1024Polymod (pre ++ a' :: (mid ++ b' :: post)) := by
   unfold rs1024Polymod
   simp only [List.foldl_append, List.foldl_cons]
@@ -161,21 +143,22 @@ theorem polymod_two_errors (pre mid post : List Nat) (a a' b b' : Nat) (ha : a <
     Nat.xor_lt_two_pow (rsLpow_lt _ _ (by omega)) (by omega)
   intro h
   have hz : rsLpow post.length (rsLpow (mid.length + 1) (a' ^^^ a) ^^^ (b' ^^^ b)) = 0 := by
-    have := congrArg (fun u => post.foldl rsStep (rsStep t b) ^^^ u) h
-    simp only [← Nat.xor_assoc, Nat.xor_self, Nat.zero_xor] at this
-    rw [← this]
-    simp only [Nat.xor_assoc]
+    generalize rsLpow post.length (rsLpow (mid.length + 1) (a' ^^^ a) ^^^ (b' ^^^ b)) = Y at h
+    generalize post.foldl rsStep (rsStep t b) = X at h
+    have h2 : X ^^^ X = X ^^^ (X ^^^ Y) := congrArg (X ^^^ ·) h
+    rw [Nat.xor_self, ← Nat.xor_assoc, Nat.xor_self, Nat.zero_xor] at h2
+    exact h2.symm
   exact rsLpow_ne_zero _ _ hElt hE0 hz
 
 /-- two wrong words (at most 63 positions apart) are never accepted -/
 theorem verify_two_errors (cs : Bytes) (pre mid post : List Nat) (a a' b b' : Nat) (ha : a < 1024)
-    (ha' : a' < 1024) (hb : b < 1024) (hb' : b' < 1024) (hna : a ≠ a') (hnb : b ≠ b')
+    (ha' : a' < 1024) (hb : b < 1024) (hb' : b' < 1024) (hna : a ≠ a')
     (hmid : mid.length + 1 ≤ 63) (hok : rs1024Verify cs (pre ++ a :: (mid ++ b :: post)) = true) :
     rs1024Verify cs (pre ++ a' :: (mid ++ b' :: post)) = false := by
   unfold rs1024Verify at hok ⊢
   simp only [beq_iff_eq] at hok
   rw [← List.append_assoc] at hok ⊢
-  have := polymod_two_errors (cs.map (·.toNat) ++ pre) mid post a a' b b' ha ha' hb hb' hna hnb hmid
+  have := polymod_two_errors (cs.map (·.toNat) ++ pre) mid post a a' b b' ha ha' hb hb' hna hmid
   rw [hok] at this
   simp only [beq_eq_false_iff_ne, ne_eq]
   exact fun h => this h.symm
